@@ -91,6 +91,7 @@ type bigRun struct {
 	ops          []string
 	startedWith  bool
 	sidecarStart int
+	pathOK       bool
 }
 
 func (b *bigRun) logf(format string, a ...any) {
@@ -467,6 +468,10 @@ func (b *bigRun) start() {
 	b.startedWith = err == nil
 	b.sidecarStart = b.track.sample("before start")
 	rmax := b.max()
+	b.pathOK = false
+	if b.startedWith && b.sidecarStart > 0 {
+		b.pathOK, _, _ = bridgePath(b.rep, b.sidecarStart)
+	}
 	if b.startedWith {
 		b.res.Count("follower_restarts", 1)
 		if b.sidecarStart > 0 && b.sidecarStart < rmax {
@@ -490,7 +495,7 @@ func (b *bigRun) exited(where string) {
 		b.res.Violate("follower-exited", "%s: follow mode returned nil without being cancelled", where)
 		return
 	}
-	classifyExit(b.res, where, msg, b.startedWith, b.startedWith, b.sidecarStart, b.max(), snapshotFloor(b.rep), b.cfg())
+	classifyExit(b.res, where, msg, b.startedWith, b.startedWith, b.sidecarStart, b.max(), snapshotFloor(b.rep), b.pathOK, b.cfg())
 }
 
 func (b *bigRun) stop() bool {
